@@ -226,6 +226,8 @@ mod ffi {
         pub fn counted(&self, n: u8, w: &mut DiplomatWrite) -> usize { let _ = w.write_str(&crate::text(n)); n as usize }
         pub fn counted_res(&self, n: u8, w: &mut DiplomatWrite) -> Result<u32, ()> { let _ = w.write_str(&crate::text(n)); Ok(n as u32) }
         pub fn qualified(&self, n: u8, w: &mut diplomat_runtime::DiplomatWrite) { let _ = w.write_str(&crate::text(n)); }
+        pub fn tagged<'a>(&'a self, n: u8, w: &'a mut DiplomatWrite) { let _ = w.write_str(&crate::text(n)); }
+        pub fn named_w<'w>(&self, n: u8, w: &'w mut DiplomatWrite) -> Result<(), ()> { let _ = w.write_str(&crate::text(n)); Ok(()) }
     }
 }
 """
@@ -249,17 +251,20 @@ size_t Fl_counted(const Fl*, uint8_t, DiplomatWrite*);
 typedef struct { union { uint32_t ok; }; bool is_ok; } R1;
 R1 Fl_counted_res(const Fl*, uint8_t, DiplomatWrite*);
 void Fl_qualified(const Fl*, uint8_t, DiplomatWrite*);   /* the writer spelled with its crate path */
+void Fl_tagged(const Fl*, uint8_t, DiplomatWrite*);      /* the writer borrowed for a NAMED lifetime shared with self */
+R0 Fl_named_w(const Fl*, uint8_t, DiplomatWrite*);       /* the writer borrowed for a named lifetime of its own */
 static int flushes; static size_t flushed_len;
 static void my_flush(DiplomatWrite* w) { flushes++; flushed_len = w->len; }
 static bool my_grow(DiplomatWrite* w, size_t cap) { (void)w; (void)cap; return false; }
 static int bad;
 static void call(const Fl* f, int which, uint8_t n, DiplomatWrite* w) {
   switch (which) { case 0: Fl_plain(f, n, w); break; case 1: Fl_checked(f, n, false, w); break; case 2: Fl_checked(f, n, true, w); break;
-                   case 3: Fl_maybe(f, n, w); break; case 4: Fl_counted(f, n, w); break; case 5: Fl_counted_res(f, n, w); break; default: Fl_qualified(f, n, w); } }
-static const char* NAMES[] = {"plain", "checked(ok)", "checked(err)", "maybe", "counted", "counted_res", "qualified"};
+                   case 3: Fl_maybe(f, n, w); break; case 4: Fl_counted(f, n, w); break; case 5: Fl_counted_res(f, n, w); break; case 6: Fl_qualified(f, n, w); break;
+                   case 7: Fl_tagged(f, n, w); break; default: Fl_named_w(f, n, w); } }
+static const char* NAMES[] = {"plain", "checked(ok)", "checked(err)", "maybe", "counted", "counted_res", "qualified", "tagged", "named_w"};
 int main(void) {
   Fl* f = Fl_make();
-  for (int which = 0; which < 7; which++) for (int n = 0; n <= 9; n += 3) {
+  for (int which = 0; which < 9; which++) for (int n = 0; n <= 9; n += 3) {
     /* a fixed writer of exactly n+1 bytes: flushing puts the NUL on the last byte of the caller's buffer */
     char* b = malloc((size_t)n + 1); memset(b, 0x55, (size_t)n + 1);
     DiplomatWrite w = diplomat_simple_write(b, (size_t)n + 1);
@@ -301,8 +306,8 @@ def flush_leg(rep):
         return
     for r in rows[:-1]:
         rep.violation({"leg": "flush", "method": r["method"], "what": r["what"]}, r)
-    rep.evaluations += 56
-    rep.extra["flush_calls"] = 56
+    rep.evaluations += 72
+    rep.extra["flush_calls"] = 72
 
 
 def run(rep, tier):
